@@ -1281,7 +1281,7 @@ type BindingObjectItem struct {
 func (n BindingObjectItem) String() string {
 	s := ""
 	if n.Key != nil {
-		if v, ok := n.Value.Binding.(*Var); !ok || !n.Key.IsIdent(v.Data) {
+		if v, ok := n.Value.Binding.(*Var); !ok || !n.Key.IsIdent(v.Name()) {
 			s += " " + n.Key.String() + ":"
 		}
 	}
@@ -1291,7 +1291,7 @@ func (n BindingObjectItem) String() string {
 // JS writes JavaScript to writer.
 func (n BindingObjectItem) JS(w io.Writer) {
 	if n.Key != nil {
-		if v, ok := n.Value.Binding.(*Var); !ok || !n.Key.IsIdent(v.Data) {
+		if v, ok := n.Value.Binding.(*Var); !ok || !n.Key.IsIdent(v.Name()) {
 			n.Key.JS(w)
 			w.Write([]byte(": "))
 		}
@@ -1867,7 +1867,7 @@ type Property struct {
 func (n Property) String() string {
 	s := ""
 	if n.Name != nil {
-		if v, ok := n.Value.(*Var); !ok || !n.Name.IsIdent(v.Data) {
+		if v, ok := n.Value.(*Var); !ok || !n.Name.IsIdent(v.Name()) {
 			s += n.Name.String() + ": "
 		}
 	} else if n.Spread {
@@ -1883,7 +1883,7 @@ func (n Property) String() string {
 // JS writes JavaScript to writer.
 func (n Property) JS(w io.Writer) {
 	if n.Name != nil {
-		if v, ok := n.Value.(*Var); !ok || !n.Name.IsIdent(v.Data) {
+		if v, ok := n.Value.(*Var); !ok || !n.Name.IsIdent(v.Name()) {
 			n.Name.JS(w)
 			w.Write([]byte(": "))
 		}
